@@ -50,7 +50,7 @@ GROUPS = {
         gen_subst=dict(Bundles="B_Event", InitOps="Init_ListenRc"),
         rnd=dict(cfg=dict(kinds=["plain", "plain", "plain"], nonce=1, nent=2),
                  alphabet=["bc", "eev", "res", "reg", "revoke", "once", "despsys", "desp", "run", "sysev", "probe"],
-                 trigs=["bc", "eev", "anyev", "res", "desp"], max_ops=3, budget=12, steps=4, ntypes=2, p_gcpoll=20,
+                 trigs=["bc", "eev", "anyev", "res", "desp"], max_ops=3, budget=12, steps=4, ntypes=2, p_gcpoll=20, p_frame=20,
                  init=[["reg", "persistent", 1, [["bc", 1], ["eev", 1, 1]], 0], ["reg", "cleanup", 2, [["bc", 1], ["res", 1]], 0],
                        ["reg", "revokable", 3, [["anyev", 1], ["bc", 2]], 1]]),
     ),
@@ -61,24 +61,24 @@ GROUPS = {
                    StepKinds={"ops", "poll"}),
         mc_thorough=C(NSys=2, NEnt=2, NVal=2, OpNames={"ins", "mut", "set", "rm", "desp", "trig", "noreact"}, MaxOps=2, Budget=4, MaxSteps=3,
                       StepKinds={"ops", "poll", "clear"}),
-        gen=C(NSys=3, NEnt=2, NVal=2, OpNames={"ins", "mut", "set", "noreact", "rm", "desp", "trig", "reg", "revoke", "run", "resset", "resmut", "resno", "res"},
-              Modes=ALLMODES, MaxOps=3, Budget=9, MaxSteps=4, StepKinds={"ops", "poll", "clear", "gc"}),
+        gen=C(NSys=3, NEnt=2, NVal=2, OpNames={"ins", "mut", "set", "noreact", "rm", "desp", "trig", "reg", "revoke", "run", "resset", "resmut", "resno", "res", "sysevsig"},
+              Modes=ALLMODES, MaxOps=3, Budget=9, MaxSteps=4, StepKinds={"ops", "poll", "clear", "gc", "frame"}),
         rnd=dict(cfg=dict(kinds=["plain", "plain", "plain"], nonce=1, nent=2),
-                 alphabet=["ins", "mut", "set", "noreact", "rm", "desp", "trig", "reg", "revoke", "run", "resset", "resmut", "resno", "res", "once", "probe"],
-                 trigs=["ins", "mut", "rem", "eins", "emut", "erem", "desp", "res"], max_ops=3, budget=12, steps=4, ntypes=2, nvals=2, p_gcpoll=30,
+                 alphabet=["ins", "mut", "set", "noreact", "rm", "desp", "trig", "reg", "revoke", "run", "resset", "resmut", "resno", "res", "once", "probe", "sysevsig"],
+                 trigs=["ins", "mut", "rem", "eins", "emut", "erem", "desp", "res"], max_ops=3, budget=12, steps=4, ntypes=2, nvals=2, p_gcpoll=30, p_frame=30,
                  init=[["ins", 1, 1, 1], ["ins", 2, 1, 1], ["reg", "persistent", 1, [["mut", 1], ["rem", 1], ["eins", 2, 1]], 0],
                        ["reg", "cleanup", 2, [["ins", 1], ["erem", 1, 1], ["desp", 2]], 0]]),
     ),
     # everything mixed: events to a listener of all kinds while components are removed (C03, C08, C18)
     "mix": dict(
         subst=dict(Bundles="B_One", InitOps="Init_All"),
-        mc_quick=C(NSys=2, NEnt=2, OpNames={"eev", "bc", "rm", "desp", "mut"}, MaxOps=2, Budget=4, MaxSteps=3, StepKinds={"ops"}),
-        mc_thorough=C(NSys=2, NEnt=2, OpNames={"eev", "bc", "rm", "desp", "mut", "ins", "run"}, MaxOps=2, Budget=4, MaxSteps=3, StepKinds={"ops", "poll"}),
-        gen=C(NSys=3, NEnt=2, NVal=2, OpNames={"eev", "bc", "rm", "desp", "mut", "ins", "run", "sysev", "despsys", "probe"}, MaxOps=3, Budget=9, MaxSteps=4,
-              StepKinds={"ops", "poll", "gc"}, Features={"err", "notake"}),
+        mc_quick=C(NSys=2, NEnt=2, OpNames={"eev", "rm", "desp", "mut", "sysevsig"}, MaxOps=2, Budget=3, MaxSteps=3, StepKinds={"ops", "frame"}),
+        mc_thorough=C(NSys=2, NEnt=2, OpNames={"eev", "bc", "rm", "desp", "mut", "ins", "run", "sysevsig"}, MaxOps=2, Budget=4, MaxSteps=3, StepKinds={"ops", "poll", "frame"}),
+        gen=C(NSys=3, NEnt=2, NVal=2, OpNames={"eev", "bc", "rm", "desp", "mut", "ins", "run", "sysev", "sysevsig", "despsys", "probe"}, MaxOps=3, Budget=9, MaxSteps=4,
+              StepKinds={"ops", "poll", "gc", "frame"}, Features={"err", "notake"}),
         rnd=dict(cfg=dict(kinds=["plain", "plain", "plain"], nonce=0, nent=2),
-                 alphabet=["eev", "bc", "rm", "desp", "mut", "ins", "run", "sysev", "despsys", "probe", "set", "trig"],
-                 trigs=["bc"], max_ops=3, budget=12, steps=4, ntypes=2, nvals=2, p_gcpoll=25,
+                 alphabet=["eev", "bc", "rm", "desp", "mut", "ins", "run", "sysev", "sysevsig", "despsys", "probe", "set", "trig"],
+                 trigs=["bc"], max_ops=3, budget=12, steps=4, ntypes=2, nvals=2, p_gcpoll=25, p_frame=30,
                  init=[["ins", 1, 1, 1], ["ins", 2, 1, 1], ["ins", 1, 2, 1],
                        ["reg", "persistent", 1, [["bc", 1], ["eev", 1, 1], ["mut", 1], ["rem", 1]], 0],
                        ["reg", "persistent", 2, [["anyev", 1], ["ins", 1], ["erem", 1, 1], ["desp", 2]], 0],
